@@ -116,15 +116,27 @@ func binaryValues(c *Ctx, be string) bool {
 			{"sort desc", func(coll string, _ interface{}) *query.Query {
 				return query.NewQuery(coll).Sort(query.SortOption{Field: "v", Direction: -1}, query.SortOption{Field: "_id", Direction: 1})
 			}, true},
-			{"eq", func(coll string, l interface{}) *query.Query { return query.NewQuery(coll).Where(query.Field("v").Eq(l)) }, false},
-			{"gt", func(coll string, l interface{}) *query.Query { return query.NewQuery(coll).Where(query.Field("v").Gt(l)) }, false},
-			{"ge", func(coll string, l interface{}) *query.Query { return query.NewQuery(coll).Where(query.Field("v").GtEq(l)) }, false},
-			{"lt", func(coll string, l interface{}) *query.Query { return query.NewQuery(coll).Where(query.Field("v").Lt(l)) }, false},
+			{"eq", func(coll string, l interface{}) *query.Query {
+				return query.NewQuery(coll).Where(query.Field("v").Eq(l))
+			}, false},
+			{"gt", func(coll string, l interface{}) *query.Query {
+				return query.NewQuery(coll).Where(query.Field("v").Gt(l))
+			}, false},
+			{"ge", func(coll string, l interface{}) *query.Query {
+				return query.NewQuery(coll).Where(query.Field("v").GtEq(l))
+			}, false},
+			{"lt", func(coll string, l interface{}) *query.Query {
+				return query.NewQuery(coll).Where(query.Field("v").Lt(l))
+			}, false},
 			{"le sorted", func(coll string, l interface{}) *query.Query {
 				return query.NewQuery(coll).Where(query.Field("v").LtEq(l)).Sort(query.SortOption{Field: "v", Direction: 1}, query.SortOption{Field: "_id", Direction: 1})
 			}, true},
-			{"neq", func(coll string, l interface{}) *query.Query { return query.NewQuery(coll).Where(query.Field("v").Neq(l)) }, false},
-			{"in", func(coll string, l interface{}) *query.Query { return query.NewQuery(coll).Where(query.Field("v").In(l, "s")) }, false},
+			{"neq", func(coll string, l interface{}) *query.Query {
+				return query.NewQuery(coll).Where(query.Field("v").Neq(l))
+			}, false},
+			{"in", func(coll string, l interface{}) *query.Query {
+				return query.NewQuery(coll).Where(query.Field("v").In(l, "s"))
+			}, false},
 		}
 		for _, qc := range cases {
 			for li, lit := range lits {
